@@ -1,6 +1,7 @@
 package worlds
 
 import (
+	"os"
 	"bytes"
 	"fmt"
 	"sort"
@@ -20,7 +21,11 @@ type nullLogger struct{}
 
 func (nullLogger) Infof(string, ...interface{})  {}
 func (nullLogger) Debugf(string, ...interface{}) {}
-func (nullLogger) Errorf(string, ...interface{}) {}
+func (nullLogger) Errorf(f string, a ...interface{}) {
+	if os.Getenv("VERIF_SUTLOG") != "" {
+		fmt.Fprintf(os.Stderr, "SUT ERROR: "+f+"\n", a...)
+	}
+}
 
 func init() { mlog.SetLogger(nullLogger{}) }
 
